@@ -36,8 +36,8 @@ Proof. exact restart_unfinished_canceled. Qed.
 Definition ex_defs : defs := [(0%nat, PDef 1 None false 0 false 0 0 0 [(0%nat, TaskDef [] false false 0 0)])].
 Example C10_ex :
   let s := exec (init ex_defs) [EvSchedule 0 VNone 0; EvSchedule 0 VNone 0; EvIterBegin 0; EvVisit 0 0; EvRunBegin 0 0; EvSave;
-                                EvRunEnd 0 0 OutOk; EvIterBegin 0; EvVisit 0 0; EvSchedReturn 0;
-                                EvIterBegin 1; EvVisit 1 0; EvRunBegin 1 0; EvRunEnd 1 0 OutOk; EvIterBegin 1; EvVisit 1 0; EvSchedReturn 1; EvRestart] in
+                                EvRunEnd 0 0 OutOk; EvNotify 0 0; EvIterBegin 0; EvVisit 0 0; EvSchedReturn 0;
+                                EvIterBegin 1; EvVisit 1 0; EvRunBegin 1 0; EvRunEnd 1 0 OutOk; EvNotify 1 0; EvIterBegin 1; EvVisit 1 0; EvSchedReturn 1; EvRestart] in
   (fun j => (j_canceled j, j_completed j, map jt_status (j_tasks j))) <$> st_jobs s = [(true, false, [Canceled]); (true, false, [Waiting])].
 Proof. vm_compute. done. Qed.
 
